@@ -74,6 +74,12 @@ def enumFrom {α} : Nat → List α → List (Int × α)
   | i, x :: xs => ((i : Int), x) :: enumFrom (i + 1) xs
 def enumerate {α} (l : List α) : List (Int × α) := enumFrom 0 l
 
+/-- `l.iter().position(p)` -/
+def positionFrom {α} (p : α → Bool) : Nat → List α → Option Int
+  | _, [] => none
+  | k, x :: xs => if p x then some (k : Int) else positionFrom p (k + 1) xs
+def position {α} (p : α → Bool) (l : List α) : Option Int := positionFrom p 0 l
+
 /-- `for x in l { body }` where `body` can `return v` (`some v`) or fall through (`none`); `rest` is what follows the loop -/
 def forRet {α β} : List α → (α → Res (Option β)) → (Unit → Res β) → Res β
   | [], _, rest => rest ()
